@@ -22,7 +22,7 @@ When(cond, f) == IF cond THEN {} ELSE {f}
 InSnap(S, i) == i \in DOMAIN S.leaves \/ i \in DOMAIN S.comps
 Rec(S, i)    == IF i \in DOMAIN S.leaves THEN S.leaves[i] ELSE S.comps[i]
 Pos(S, i)    == S.leaves[i].pos
-LeafSet(H, i) == Range(LeavesOf(H, i))
+LeafSet(H, i) == IF i \in DOMAIN H THEN Range(LeavesOf(H, i)) ELSE {i}      \* total: an object the specification has never seen is its own leaf
 
 \* --------------------------------------------------------------------- C02
 C02Complete(H, c, S) ==
